@@ -4,7 +4,9 @@
 (* specification Accept.  Events:                                          *)
 (*   init         start of a world (one canonical chain, one protocol      *)
 (*                configuration)                                           *)
-(*   offer        one block (via AddBlock) or one header (via AddHeaders)  *)
+(*   offer        one block (via AddBlock) or one header (via AddHeaders;  *)
+(*                every other one followed, in the same call, by a header  *)
+(*                linked to it and signed by its designated validators)    *)
 (*                offered to a freshly prepared node: the description of   *)
 (*                the offered block MEASURED by the harness (attrs), the   *)
 (*                description the case table declared (decl), the result,  *)
@@ -73,6 +75,10 @@ HeaderChecks(p, e, t) ==
     \cup NameIf(ToSet(e.obs.db_changed) \subseteq (IF rec THEN HeaderKeys ELSE {}), "HdrKeepsStore")
     \cup NameIf(~e.pred.has \/ e.pred.acc = rec \/ e.pred.alt_acc = rec, "ImplPrediction")
 
+\* batch offers: the header the harness appended to the offered one (id "n") is linked to it and properly signed
+HasFollower(hs) == Len(hs) > 0 /\ hs[Len(hs)] = "n"
+StripFollower(hs) == IF HasFollower(hs) THEN SubSeq(hs, 1, Len(hs) - 1) ELSE hs
+
 Correct == [idx |-> "next", prev |-> TRUE, ts |-> "later", merkle |-> TRUE, srflag |-> TRUE, prevroot |-> TRUE,
             wit |-> TRUE, txdef |-> "none", hid |-> "c", free |-> FALSE]
 
@@ -87,7 +93,10 @@ Step ==
                   t == Post(p, e) IN
               /\ s' = t /\ vt' = e.vt
               /\ skip' = (e.via = "block" /\ e.acc)
-              /\ Report(l, IF e.via = "block" THEN BlockChecks(p, e, t) ELSE HeaderChecks(p, e, t),
+              /\ Report(l, IF e.via = "block" THEN BlockChecks(p, e, t)
+                           ELSE HeaderChecks(p, e, [t EXCEPT !.hdrs = StripFollower(t.hdrs)])
+                                \cup NameIf(HasFollower(t.hdrs) =>
+                                               (StripFollower(t.hdrs) # p.hdrs /\ HeaderOK(e.attrs)), "FollowerOnlyAfterValid"),
                         [id |-> e.id, kind |-> e.kind, family |-> e.family, state |-> e.state, via |-> e.via])
          [] e.event = "good" ->
               /\ UNCHANGED <<s, vt, skip>>
